@@ -41,6 +41,12 @@ func toolMain(a []string) {
 			}
 			fmt.Fprintln(out, lexCanon(in))
 		}
+	case "pins": // harness tool pins <outfile>
+		out := ""
+		if len(a) > 1 {
+			out = a[1]
+		}
+		pinsTool(repoDir, out)
 	case "gen-lean": // harness tool gen-lean <dir>
 		genLeanRuntime(a[1])
 	default:
